@@ -255,6 +255,7 @@ pub proof fn lemma_cleaned_grows(res: FilesResource, d: Seq<Del>, p: Seq<PathBuf
         /*[C12.frame]*/ new_dels_allowed(old(w).deleted, final(w).deleted, *target),
         /*[C12.frame]*/ target.out() is None ==> final(w).deleted == old(w).deleted,
         /*[C12.deletes]*/ r is Ok ==> (target.out() matches Some(o) ==> forall|i: int| 0 <= i < o.files@.len() ==> res_cleaned(#[trigger] o.files@[i], final(w).deleted, final(w).probed)),
+        /*[C12.outputs-all]*/ r is Ok ==> grows(old(w).probed, final(w).probed),
 //@pre
         broadcast use axiom_path_key_model;
         broadcast use vstd::std_specs::hash::group_hash_axioms;
@@ -265,6 +266,7 @@ pub proof fn lemma_cleaned_grows(res: FilesResource, d: Seq<Del>, p: Seq<PathBuf
                 /*[C12.frame]*/ target.out() == Some(output),
                 it0.seq().unref() == output.files@,
                 new_dels_allowed(old(w).deleted, w.deleted, *target),
+                /*[C12.outputs-all]*/ grows(old(w).probed, w.probed),
                 /*[C12.deletes]*/ forall|i: int| 0 <= i < it0.index@ ==> res_cleaned(#[trigger] output.files@[i], w.deleted, w.probed),
 //@loopbody
             broadcast use axiom_path_key_model;
@@ -369,6 +371,7 @@ pub proof fn lemma_cleaned_grows(res: FilesResource, d: Seq<Del>, p: Seq<PathBuf
             proof {
                 // [C12.deletes] this resource is dealt with, and the earlier ones stay dealt with (the logs only grew)
                 assert(grows(d_it, w.deleted) && grows(p_it, w.probed));
+                lemma_grows_trans(old(w).probed, p_it, w.probed);
                 assert(res_cleaned(*resource, w.deleted, w.probed));
                 assert forall|i: int| 0 <= i < it0.index@ + 1 implies res_cleaned(#[trigger] output.files@[i], w.deleted, w.probed) by {
                     if i < it0.index@ {
@@ -461,6 +464,23 @@ pub proof fn lemma_any_push(d0: Seq<Del>, d1: Seq<Del>, ts: Map<TargetId, Target
 {
     assert(d1.push(x).subrange(0, d0.len() as int) =~= d1.subrange(0, d0.len() as int));
 }
+/// [C12.outputs-all] every output resource of the target has been dealt with
+pub open spec fn outputs_cleaned(t: Target, d: Seq<Del>, p: Seq<PathBuf>) -> bool {
+    t.out() matches Some(o) ==> forall|i: int| 0 <= i < o.files@.len() ==> res_cleaned(#[trigger] o.files@[i], d, p)
+}
+pub open spec fn all_outputs_cleaned(ts: Map<TargetId, Target>, d: Seq<Del>, p: Seq<PathBuf>) -> bool {
+    forall|id: TargetId| ts.contains_key(id) ==> outputs_cleaned(#[trigger] ts[id], d, p)
+}
+pub proof fn lemma_outputs_grow(t: Target, d: Seq<Del>, p: Seq<PathBuf>, d2: Seq<Del>, p2: Seq<PathBuf>)
+    requires outputs_cleaned(t, d, p), grows(d, d2), grows(p, p2),
+    ensures outputs_cleaned(t, d2, p2),
+{
+    if let Some(o) = t.out() {
+        assert forall|i: int| 0 <= i < o.files@.len() implies res_cleaned(#[trigger] o.files@[i], d2, p2) by {
+            lemma_cleaned_grows(o.files@[i], d, p, d2, p2);
+        }
+    }
+}
 /// [C12.state-all] the state record of every target of the resolved map has been handed to `delete_saved_env_state`
 pub open spec fn all_states_deleted(d: Seq<Del>, ts: Map<TargetId, Target>) -> bool {
     forall|id: TargetId| ts.contains_key(id) ==> d.contains(Del::State(#[trigger] ts[id].meta()))
@@ -513,6 +533,7 @@ pub proof fn lemma_any_extend(d0: Seq<Del>, d1: Seq<Del>, d2: Seq<Del>, ts: Map<
         /*[C07.exit]*/ final(w).run_failed ==> r is Err,
         /*[C12.scope]*/ requested_targets is None ==> final(w).steps.len() == 0,
         /*[C12.state-all,C20.clean-through]*/ (arg_matches.has(CLEAN@) && final(w).steps.len() > 0) ==> all_states_deleted(final(w).deleted, targets@),
+        /*[C12.outputs-all,C20.clean-through]*/ (arg_matches.has(CLEAN@) && (r is Ok || final(w).steps.len() > 0)) ==> all_outputs_cleaned(targets@, final(w).deleted, final(w).probed),
 //@pre
         broadcast use axiom_tid_key_model;
         broadcast use axiom_path_key_model;
@@ -554,10 +575,12 @@ pub proof fn lemma_any_extend(d0: Seq<Del>, d1: Seq<Del>, d2: Seq<Del>, ts: Map<
                     it2.seq().unref().to_set() == targets@.values(),
                     all_new_any(old(w).deleted, w.deleted, ts, dirs, named),
                     /*[C12.state-all,C20.clean-through]*/ named ==> all_states_deleted(w.deleted, ts),
+                    /*[C12.outputs-all,C20.clean-through]*/ forall|j: int| 0 <= j < it2.index@ ==> outputs_cleaned(#[trigger] it2.seq().unref()[j], w.deleted, w.probed),
 //@loopbody
                 broadcast use axiom_tid_key_model;
                 broadcast use vstd::std_specs::hash::group_hash_axioms;
                 let ghost d1 = w.deleted;
+                let ghost p1 = w.probed;
                 proof {
                     assert(it2.seq().unref()[it2.index@ as int] == *target);
                     assert(targets@.values().contains(*target));
@@ -569,6 +592,24 @@ pub proof fn lemma_any_extend(d0: Seq<Del>, d1: Seq<Del>, d2: Seq<Del>, ts: Map<
                         lemma_extension_keeps(d1, d2, ts);
                     }
                 }
+//@after 0 `clean_target_output_paths(target)`
+                proof {
+                    // [C12.outputs-all] this target is dealt with, and the earlier ones stay dealt with (the logs only grew)
+                    assert(grows(d1, w.deleted) && grows(p1, w.probed));
+                    assert forall|j: int| 0 <= j < it2.index@ + 1 implies outputs_cleaned(#[trigger] it2.seq().unref()[j], w.deleted, w.probed) by {
+                        if j < it2.index@ {
+                            lemma_outputs_grow(it2.seq().unref()[j], d1, p1, w.deleted, w.probed);
+                        }
+                    }
+                }
+//@after 0 `for target in targets.values()`
+            proof {
+                // [C12.outputs-all] every value of the map went through the loop
+                assert forall|id: TargetId| ts.contains_key(id) implies outputs_cleaned(#[trigger] ts[id], w.deleted, w.probed) by {
+                    assert(targets@.values().contains(ts[id]));
+                }
+                assert(all_outputs_cleaned(ts, w.deleted, w.probed));
+            }
 //@after 1 `for target in targets.values()`
                 proof {
                     // [C12.state-all] every value of the map went through the loop
